@@ -27,7 +27,8 @@ def check(tier="quick", seed=0):
             so, se = p.communicate(timeout=900)
             d = json.loads(so)
         except Exception as e:
-            return {"name": "ground.marsh_diff", "error": "worker under %s failed: %r %s" % (h, e, (se or "")[-300:] if 'se' in dir() else ""), "obligations": [], "violations": []}
+            from ground.common import worker_failed
+            return worker_failed("ground.marsh_diff", h, (se if ("se" in dir() and se) else repr(e)), repo)
         n += d["evaluations"]
         samples.append({"host": h, "evaluations": d["evaluations"]})
         for v in d["violations"]:
